@@ -68,7 +68,8 @@ func (stubReader) ReadCRL(p crlreader.CRLProcessor, path string) (*crlreader.CRL
 		if i == c.readFailAfter {
 			return nil, verifrt.NewError("truncated CRL")
 		}
-		e := &crlreader.CRLEntry{Issuer: issuer, RevokedCertificate: &pkix.RevokedCertificate{SerialNumber: s}}
+		// the entry's revocation date is arbitrary (past, now, in the future of the server clock)
+		e := &crlreader.CRLEntry{Issuer: issuer, RevokedCertificate: &pkix.RevokedCertificate{SerialNumber: s, RevocationTime: verifrt.TimeAt(verifrt.NondetInt64("revocationDate"))}}
 		if err := p.InsertRevokedCertificate(e); err != nil {
 			return nil, err
 		}
@@ -192,6 +193,14 @@ func installWorld() {
 	verifrt.Override("crypto/sha256.New", func() hash.Hash { return &regDigest{} })
 	verifrt.Override("net/url.Parse", func(raw string) (*url.URL, error) { return &url.URL{Path: raw}, nil })
 	verifrt.Override("(*net/url.URL).String", func(u *url.URL) string { return u.Path })
+	// encoding/asn1.Marshal (reflection based, not executed): the canonical encoding Go would produce for a
+	// name is a function of the name - and need not be the encoding the CA used in the certificate
+	verifrt.Override("encoding/asn1.Marshal", func(val interface{}) ([]byte, error) {
+		if n, ok := val.(pkix.RDNSequence); ok {
+			return verifrt.UFBytes64("asn1.Marshal", n.String()), nil
+		}
+		return verifrt.NondetBytes("asn1.Marshal", 8), nil
+	})
 	verifrt.Override(modRoot+"/crl/crlrepository.verifyCRLSignature", modelVerify)
 	verifrt.Override(modRoot+"/core/asn1parser.ParseIssuerRDNSequence", func(c *x509.Certificate) (*pkix.RDNSequence, error) {
 		return crlstore.VerifRdn(certIssuer[c]), nil
@@ -218,7 +227,9 @@ func (w *world) newRepo() *Repository {
 }
 
 func cert(issuer string, serial *big.Int, cdp ...string) *x509.Certificate {
-	c := &x509.Certificate{SerialNumber: serial, CRLDistributionPoints: cdp}
+	// RawIssuer is SOME DER encoding of the issuer name (string types and lengths are the CA's choice): arbitrary
+	// bytes; the name they decode to is certIssuer[c] (ParseIssuerRDNSequence model)
+	c := &x509.Certificate{SerialNumber: serial, CRLDistributionPoints: cdp, RawIssuer: verifrt.NondetBytes("rawIssuer", 8)}
 	certIssuer[c] = issuer
 	return c
 }
